@@ -205,6 +205,15 @@ def C07(ctx):
     ctx.assumptions += ["weights are dyadic rationals k/8 or small integers: every f64 operation of the code is exact",
                         "RationalSemiring has no public constructor: only naturals built from one/zero/+/* are reachable"]
     folds_model(ctx)
+    # spec -> impl: for every function of 3 variables x 6 semirings x K weight vectors TLC prints the count from the definition
+    # (normalised weights) and the unsmoothed count of the ROBDD under EVERY order (arbitrary weights); compared with the library
+    # on BDDs (all orders), SDDs (3 vtree shapes) and top-down d-DNNFs (both stores)
+    cfg = mkcfg(ctx, "GenWmc_3.cfg", "SPECIFICATION Spec\nCONSTANTS\n  NV = 3\n  PD = 6\n  Sample = 1\n  Seed = %d\n  K = %d\nCHECK_DEADLOCK FALSE\n" % (ctx.seed, 1 if ctx.quick else 8))
+    gen_and_replay(ctx, "GenWmc", cfg, "wmcvec", "weighted counts of all 256 functions of 3 variables x 6 semirings x %d weight vectors x all 6 orders" % (1 if ctx.quick else 8),
+                   extra_replay=["--nv", 3], timeout=2400)
+    if not ctx.quick:
+        cfg = mkcfg(ctx, "GenWmc_4.cfg", "SPECIFICATION Spec\nCONSTANTS\n  NV = 4\n  PD = 6\n  Sample = 64\n  Seed = %d\n  K = 2\nCHECK_DEADLOCK FALSE\n" % (ctx.seed % 64))
+        gen_and_replay(ctx, "GenWmc", cfg, "wmcvec", "weighted counts of 1/64 of the functions of 4 variables x 6 semirings x all 24 orders", extra_replay=["--nv", 4], timeout=2400)
     _bdd_family(ctx, "c07", "TraceBdd_C07.cfg")
     _sdd_family(ctx, "c07", "TraceSdd_C07.cfg", nq=4, nt=24)
     record_and_validate(ctx, td_jobs(ctx, 3 if ctx.quick else 16 * TH, 120), "TraceTopDown", "TraceTopDown_C07.cfg")
